@@ -344,11 +344,15 @@ def rest_part(case, res):
         cfg.CONF.set_override('auth_enable', False, 'pecan')
 
 
-LIST_FILTERS = [{}, {'project_id': 'pA'}, {'all_projects': 'true'},
-                {'project_id': 'pA', 'fields': 'id,name'},
-                {'project_id': 'pA', 'limit': '5', 'sort_keys': 'id'},
-                {'scope': 'private'}, {'project_id': 'eq:pA'},
-                {'project_id': 'in:pA,pB'}, {'project_id': 'neq:pB'}]
+# the owner of the listed resources has a uuid-shaped project id here: the
+# API accepts nothing else in a project_id filter
+OWNER = 'aaaaaaaa-aaaa-4aaa-8aaa-aaaaaaaaaaaa'
+LIST_FILTERS = [{}, {'project_id': OWNER}, {'all_projects': 'true'},
+                {'project_id': OWNER, 'fields': 'id,name'},
+                {'project_id': OWNER, 'limit': '5', 'sort_keys': 'id'},
+                {'scope': 'private'}, {'project_id': 'eq:' + OWNER},
+                {'project_id': 'in:%s,pB' % OWNER},
+                {'project_id': 'neq:pB'}, {'project_id': 'pA'}]
 
 
 def _rest_listings(R, scope, res):
@@ -364,7 +368,7 @@ def _rest_listings(R, scope, res):
     for t in lists:
         for actor in ('pB', 'pB+'):
             R.reset()
-            fxa = fixtures.make('pA', tag='one', scope=scope)
+            fxa = fixtures.make(OWNER, tag='one', scope=scope)
             project = actor.rstrip('+')
             fixtures.make(project, tag='two')
             ids = set(v['id'] for v in fxa.values()
